@@ -216,6 +216,8 @@ def run(ctx):
     # ---- comparators
     # every order type of (year, month, day) with interior AND extreme field values (a weighted-key comparator overlaps only at the extremes)
     pts = [(y, m, d) for y in (1999, 2000) for m in (1, 3, 4, 12) for d in (1, 9, 10, 31) if CAL.exists(y, m, d)]
+    # years with different digit counts (a formatted / concatenated key orders them wrongly) and the range ends
+    pts += [(y, m, d) for y in (1, 9, 10, 99, 100, 999, 1000, 9999) for (m, d) in ((1, 1), (2, 4), (12, 31))]
 
     def mk(x):
         return I.call('SolarDay::from_ymd', list(x))
